@@ -48,7 +48,7 @@ def main():
         checks = {}
         try:
             for p in ([prop] + [c for c in claimed if c != prop] if allp else [prop]):
-                r = sh('cd %s && ./check %s' % (HERE, p), timeout=3600)
+                r = sh('cd %s && SUPP_VERIF_KEEP_EVIDENCE=1 ./check %s' % (HERE, p), timeout=3600)
                 viol = [l for l in r.stdout.splitlines() if l.startswith('VIOLATION')]
                 failed = [l for l in r.stdout.splitlines() if l.startswith('FAILED')]
                 checks[p] = {'exit': r.returncode, 'violations': len(viol), 'first_failed': failed[0][:220] if failed else None,
